@@ -280,6 +280,10 @@ def _make_pool(rng, n, d, task, kind):
         X = (lab[:, None] * 60.0) + nr.normal(0, 0.3, (n, d))
         mid = nr.random_sample(n) < 0.2  # a few ambiguous points half-way: some utilities stay positive
         X[mid] = 30.0 + nr.normal(0, 0.3, (int(mid.sum()), d))
+    elif kind == "dense":
+        # many samples within a fraction of a kernel width: class-frequency estimates grow with the pool
+        lab = nr.randint(0, 2, n)
+        X = nr.normal(0, 0.05, (n, d)) + lab[:, None] * 0.02
     elif kind == "duplicates":
         base = nr.normal(0, 1.5, (max(2, n // 3), d))
         X = base[nr.randint(0, len(base), n)]
